@@ -227,6 +227,19 @@ class World:
         for m in self.sc.get('manifests', []):
             self.write_manifest(m, root=root)
 
+    def other_tree(self):
+        """A small consistent Manifest tree next to the world (not inside it), for command lines naming
+        several trees."""
+        t0 = os.path.join(self.base, '.tree0')
+        if not os.path.isdir(t0):
+            _o['os.mkdir'](t0)
+            _o['os.mkdir'](os.path.join(t0, 'sub'))
+            with _o['open'](os.path.join(t0, 'sub', 'f'), 'w') as f:
+                f.write('clean')
+            with _o['open'](os.path.join(t0, 'Manifest'), 'w') as f:
+                f.write(G.dump([{'tag': 'DATA', 'path': 'sub/f', 'size': 5, 'sums': G.digests(b'clean', ['SHA256'])}]))
+        return t0
+
     # -- mutations ------------------------------------------------------------
     def mutate(self, op, root=None):
         """Apply one storage mutation; returns True if it changed something."""
